@@ -26,7 +26,11 @@ WORKERS = 10
 
 PRELUDE = ("struct F { u8 a; u16 b; };\nstruct D { u8 x<>; };\nstruct G { u8 g<...>; };\n"
            "typedef F TF;\ntypedef D TD;\ntypedef G TG;\nenum E { E_1 = 1, E_2 = 2 };\nconst ZERO = 0;\nconst NEG = -1;\n"
-           "const BIG = 4294967296;\nconst TWO = 2;\n")
+           "const BIG = 4294967296;\nconst TWO = 2;\n"
+           # unlimited / dynamic through nesting only, in every position the stiffness computation distinguishes
+           "struct GD { u8 d<>; G tail; };\nstruct GN { u8 p; G tail; };\nstruct GNN { u16 q; GN tail; };\n"
+           "struct GDY { D d; u8 mid; TG tail; };\ntypedef GD TGD;\n"
+           "struct DN { u8 p; D d; u8 q; };\nstruct DL { u8 p; D d; };\nstruct DNN { DN a; u8 b; };\ntypedef DNN TDNN;\n")
 
 BREAKERS = [
     ('unlimited-not-last', 'struct B { u8 g<...>; u8 a; };'),
@@ -84,6 +88,20 @@ BREAKERS = [
     ('discriminator-out-of-32-bits', 'union B { 4294967296: u8 a; };'),
     ('discriminator-out-of-32-bits', 'union B { BIG: u8 a; };'),
 ]
+for _u in ('GD', 'TGD', 'GN', 'GNN', 'GDY'):
+    BREAKERS += [('unlimited-not-last', 'struct B { %s g; u8 a; };' % _u),
+                 ('unlimited-not-last', 'struct B { u8 n; %s g; u8 x<@n>; };' % _u),
+                 ('unlimited-in-array', 'struct B { %s x<>; };' % _u),
+                 ('unlimited-in-array', 'struct B { %s x[2]; };' % _u),
+                 ('unlimited-in-array', 'struct B { %s x<2>; };' % _u),
+                 ('unlimited-in-array', 'struct B { u8 p; %s x<...>; };' % _u),
+                 ('unlimited-in-optional', 'struct B { %s* x; };' % _u),
+                 ('unlimited-in-union-arm', 'union B { 1: u8 a; 2: %s x; };' % _u)]
+for _d in ('DN', 'DL', 'DNN', 'TDNN'):
+    BREAKERS += [('dynamic-in-fixed-array', 'struct B { %s x[2]; };' % _d),
+                 ('dynamic-in-limited-array', 'struct B { u8 a; %s x<2>; };' % _d),
+                 ('dynamic-in-optional', 'struct B { %s* x; };' % _d),
+                 ('dynamic-in-union-arm', 'union B { 1: u8 a; 2: %s x; };' % _d)]
 DIAG_RE = re.compile(r'sch\.prophy:(\d+):(\d+): error: .+')
 
 
